@@ -18,7 +18,7 @@ import (
 func TestMain(m *testing.M) { pbt.RunMain(m) }
 
 func gen(t *rapid.T) perco.GCase {
-	return perco.Generate(t, perco.Profile{MaxSteps: 26, WRead: 2, WMaint: 7, WDup: 2, WCheck: 5, HotKey: true, Excl: perco.OpenExclusions()})
+	return perco.Generate(t, perco.Profile{MaxSteps: 26, WRead: 2, WMaint: 7, WDup: 2, WCheck: 5, WPartial: 2, HotKey: true, Excl: perco.OpenExclusions()})
 }
 
 func run(c perco.GCase, r *pbt.Rec) error {
